@@ -102,6 +102,17 @@ def evaluate(fn, ops, params, fields, opaque=None):
                 return ops.fn[name](ev(e["args"][0]))
             if opaque and name in opaque and e.get("this") is not None and e["this"].get("k") == "This":
                 return opaque[name](*[ev(a) for a in e["args"]])
+            if PROG[0] is not None and e.get("this") is None and _depth[0] < 4 and "::" in (e.get("callee") or ""):
+                # a free helper function of the program (namespace-scope, e.g. czarny_detail::jacobianRoot): its closed form
+                cands = [f for f in PROG[0].fns(e.get("callee", "")) if len(f["params"]) == len(e["args"]) and f.get("body") is not None]
+                if len(cands) > 1 and fn.get("l"):
+                    cands = [f for f in cands if f.get("l") and f["l"][0] == fn["l"][0]]     # internal linkage: the caller's file
+                if len(cands) == 1 and not cands[0]["qn"].startswith("std::"):
+                    _depth[0] += 1
+                    try:
+                        return evaluate(cands[0], ops, {p_["name"]: ev(a) for p_, a in zip(cands[0]["params"], e["args"])}, {}, opaque)
+                    finally:
+                        _depth[0] -= 1
             if PROG[0] is not None and e.get("this") is not None and e["this"].get("k") == "This" and _depth[0] < 4:
                 # a closed form that delegates to another member function of the same object (u_D_Interior returning
                 # X::u_D(...)): the callee's closed form with the arguments substituted
